@@ -83,4 +83,20 @@ ENTRIES = {
         "note": TB + "; alarms on third-party CDFs that are demonstrably non-monotone at the probed points are counted but not judged (documented precondition)",
         "technique": "runtime monitoring: exact reference-model validity checker over generated constructor inputs; std UB checks, overflow checks and a CPU-time hang watchdog",
     },
+    "C05": {
+        "text": "For each generated distribution obtains the complete (symbol, cumulative, probability) table of every representation the library offers "
+                "through that representation's own access path (encoder queries, quantile walk, symbol_table, views, lazy vs eager constructors with "
+                "identical arguments, lookup tables direct and converted, hash-table encoders, all to_generic_* conversions, &M impls) and requires pairwise "
+                "equality with the encoder view; then encodes with one representation and decodes with another on the ANS and range coders.",
+        "note": TB,
+        "technique": "runtime monitoring: differential comparison of exhaustively extracted tables across representations + cross-representation coding",
+    },
+    "C18": {
+        "text": "Evaluates num_words / num_bits / num_valid_bits / is_empty / len / maybe_exhausted at every step of generated ANS, range-encoder (tens of "
+                "thousands of queries while words are held back) and bit-coder histories against what exporting a clone at that moment returns, checks decoders "
+                "for exhaustion exactly when the encoded symbols are consumed and not while whole words remain, and compares every model diagnostic with its "
+                "textbook definition computed from the exact fixed-point probabilities (obtained independently of symbol_table).",
+        "note": TB + "; diagnostics compared with an explicit rounding tolerance",
+        "technique": "runtime monitoring: clone-and-export oracle on size/emptiness queries at every step + textbook-formula oracle for diagnostics",
+    },
 }
